@@ -4,23 +4,44 @@ SPEC = dict(
     prop="C25",
     proof_module="SimbodyProofs.C25",
     sources=["SimbodyModel/Proto.lean", "SimbodyModel/C25.lean", "SimbodyModel/C25_machine.lean",
-             "SimbodyModel/C25_small.lean", "SimbodyProofs/C25_lemmas.lean", "SimbodyProofs/C25.lean",
-             "Drivers/C25.lean"],
+             "SimbodyModel/C25_small.lean", "SimbodyProofs/C25_lemmas.lean", "SimbodyProofs/C25_machine_lemmas.lean",
+             "SimbodyProofs/C25_det_lemmas.lean", "SimbodyProofs/C25.lean", "Drivers/C25.lean"],
     flow="driver_first",
     modes=["", "small"],
     n=dict(quick=2400, thorough=120000),
-    rtol=0.0, atol=0.0,     # kind D: small-integer-valued doubles, every sum/product exact; records with a division
-                            # (inv2/inv3/syminv3) carry their own `T 1e-9 1e-12` line
+    rtol=0.0, atol=0.0,     # kind D: small-integer-valued doubles, every sum/product exact; records with a division or a
+                            # square root (inv2/inv3/syminv3, norms/einv/ediv) carry their own `T` line
     rule="the Lean driver generates legal op sequences (VERIF_SEED) over 8 handles (shapes 0..12, view expressions of "
-         "depth 0..3 from block/row/col/diag/transpose/negate/sub-vector/index, 33 op kinds, fresh handles every 400 ops) "
-         "and `small` records (det/inverse/cross/SymMat layout/negator/conjugate); distinct = distinct op lines",
-    partial=None,
+         "depth 0..3 from block/row/col/diag/transpose/negate/sub-vector/index, 38 op kinds incl. same-owner disjoint "
+         "source/destination, writes through index views, odd-transpose view handles; fresh handles every 400 ops), "
+         "replayed on double (O lines) and float/complex/Vec3/SpatialVec elements (P lines); `small` records: det/inverse/"
+         "cross/SymMat layout/Mat<M,N> products (sizes 1..6, non-square, strided transposes)/Vec<N>,Row<N> (N=1..6)/"
+         "negator/conjugate incl. 144 mixed scalar products, sums, differences, quotients; distinct = distinct op lines",
+    partial=(
+        "(i) PROVED about the executed model: view addressing of block/row/col/diag/transpose/negate expressions of any "
+        "depth = composed index map, injective and in-bounds on every owner layout (also index views, with their DOCUMENTED "
+        "addressing; the as-coded IndexedVectorHelper addressing is modelled and proved to differ unless the source is "
+        "contiguous = known finding); store-size invariant and frame property of every op of `step`; write-through "
+        "(exactly the viewed cells change, nothing is dropped) instantiated to resolveExpr/writeRes; value-level "
+        "'view of view denotes the composed matrix' (transpose/block/negate); the in-place ops (fill zero scale negip eadd "
+        "esubfrom add sub emul and copy-into-view) and freshly built owner stores read back exactly the Dense reference value; "
+        "Mat22/33, SymMat33 det/inverse, cross products, negator and conjugate + - x, SymMat packed index bijection, "
+        "recursive determinant at 4 (multiplicative, transpose) and triangular 5, 6.  "
+        "(ii) PREDICATE/CORRESPONDENCE ONLY (no theorem): exceptions and legality of resize/resizeKeep/clear/lock/viewAssign "
+        "(the dangling-view rule is computed by viewCount, not proved sufficient), the producers mul/mulv/dot/plus/minus/smul/"
+        "deep and rowscale/colscale/sassign/sdiv as statements about `step` (only their shared helpers are proved), the norm "
+        "family (norm normRMS normInf abs), elementwiseInvert/Divide, rowAndColScale (in-place form; the value-returning "
+        "overload does not compile), sums; float, complex (conjugate / negator<conjugate> element views), Vec3 and SpatialVec "
+        "elements are judged by the harness's own brute-force dense shadow only (for Vec3/SpatialVec about 30% of the ops — "
+        "products, elementwise products, scalings by vectors, abs/norms, mixed Hermitian-typed operands — are not "
+        "expressible through the public API and are only followed on the reference: D tags emulated.<type>.<op>); "
+        "general det 5,6, Mat<M,N>/Vec<N>/Row<N> arithmetic at sizes 1,4-6, negator/conjugate division.  "
+        "(iii) NOT COVERED: triangular/symmetric big-matrix helpers (unreachable from Matrix_ on this tree), LAPACK-backed "
+        "invertInPlace/lapackInverse/inverse for M>3, SymMat beyond 3x3 arithmetic, external-data (shared memory) "
+        "constructors, overlapping source/destination of one op, negated view HANDLES (viewAssign of a negator-typed view "
+        "does not type-check in the real API), stream I/O"),
     assumptions=[
-        "element types float and std::complex<double> (and the conjugate/negator element types their views produce) are "
-        "checked by harness-only predicates against a brute-force dense reference inside the harness, not by the Lean model",
-        "Vec3/SpatialVec matrix elements, triangular/symmetric big-matrix helpers (not reachable through the public "
-        "Matrix_ API on this tree) and LAPACK-backed invertInPlace/lapackInverse are not exercised",
-        "aliasing between source and destination of one operation, illegal indices and shape mismatches are never "
+        "aliasing between overlapping source and destination cells, illegal indices and shape mismatches are never "
         "generated (undefined behaviour in the release build); the Lean model decides legality",
     ],
 )
